@@ -1329,16 +1329,21 @@ fn run_inner(h: &AdpHistory, prop: &str, known: &Known) -> Result<AFacts, Div> {
 
     let mut fin: Option<Vec<Item>> = None;
     let mut model: Vec<u32> = vals(&contents0);
+    let mut max_len_seen = model.len();
 
     macro_rules! drain {
         ($max:expr) => {{
             let max: usize = $max;
-            let budget = if max == 0 { 10_000 } else { max };
+            // logical budget of one drain: no correct translation of this history emits more diffs than
+            // 8 x operations x (the longest the vector has been + 4) - ten thousand for ordinary histories
+            max_len_seen = max_len_seen.max(model.len());
+            let unbounded = 10_000usize.max(8 * h.ops.len() * (max_len_seen + 4));
+            let budget = if max == 0 { unbounded } else { max };
             let mut left = budget;
             loop {
                 if left == 0 {
                     if max == 0 {
-                        return Err(Div { prop: "PANIC", what: "the stream answered Ready 10000 times in one drain".into() });
+                        return Err(Div { prop: "PANIC", what: format!("the stream answered Ready {unbounded} times in one drain") });
                     }
                     break;
                 }
